@@ -545,21 +545,20 @@ Create HintDb keeps.
 
 (* structural decomposition of a monadic term *)
 Ltac keeps_step :=
-  first
-    [ solve [auto 2 with keeps]
-    | apply keeps_bind_get_vol; intros ? ?
-    | apply keeps_bind_get_file; intros ? ?
-    | apply keeps_bind_get; intros ?
-    | apply keeps_bind; [|intros ?]
-    | apply keeps_try
-    | apply keeps_locked
-    | apply keeps_put_vol; assumption
-    | apply keeps_put_file; assumption
-    | apply keeps_modify; shape_of_setters
-    | match goal with
-      | |- keeps _ (if ?b then _ else _) => destruct b
-      | |- keeps _ (match ?x with _ => _ end) => destruct x
-      end ].
+  match goal with
+  | |- keeps _ (bind (get_vol _) _) => apply keeps_bind_get_vol; intros ? ?
+  | |- keeps _ (bind (get_file _) _) => apply keeps_bind_get_file; intros ? ?
+  | |- keeps _ (bind _ _) => apply keeps_bind; [|intros ?]
+  | |- keeps _ (try _) => apply keeps_try
+  | |- keeps _ (locked _) => apply keeps_locked
+  | |- keeps _ (put_vol _ _) => apply keeps_put_vol; assumption
+  | |- keeps _ (put_file _ _) => apply keeps_put_file; assumption
+  | |- keeps _ (modify _) => apply keeps_modify; shape_of_setters
+  | |- keeps _ (if ?b then _ else _) => destruct b
+  | |- keeps _ (match ?x with _ => _ end) => destruct x
+  | |- keeps _ (let _ := _ in _) => cbv zeta
+  | |- keeps _ _ => solve [auto 2 with keeps]
+  end.
 Ltac keeps_go := repeat keeps_step.
 
 Lemma keeps_add32 s0 a b : keeps s0 (add32 a b). Proof. unfold add32. keeps_go. Qed.
@@ -587,3 +586,931 @@ Proof.
   intros Hb. unfold for_blocks. apply keeps_bind; [apply keeps_add32|].
   intros _. apply keeps_for_blocks_from. exact Hb.
 Qed.
+#[export] Hint Resolve keeps_for_blocks_from keeps_for_blocks : keeps.
+
+(* ---- FsFat.v ---- *)
+Lemma keeps_ts_to_fat s0 t : keeps s0 (ts_to_fat t). Proof. unfold ts_to_fat. keeps_go. Qed.
+Lemma keeps_get_timestamp s0 : keeps s0 get_timestamp. Proof. unfold get_timestamp. keeps_go. Qed.
+#[export] Hint Resolve keeps_ts_to_fat keeps_get_timestamp : keeps.
+Lemma keeps_serialize s0 b e : keeps s0 (serialize b e). Proof. unfold serialize. keeps_go. Qed.
+Lemma keeps_fat_block s0 v a b : keeps s0 (fat_block v a b). Proof. unfold fat_block. keeps_go. Qed.
+Lemma keeps_cluster_to_block s0 v c : keeps s0 (cluster_to_block v c).
+Proof. unfold cluster_to_block. keeps_go. Qed.
+#[export] Hint Resolve keeps_serialize keeps_fat_block keeps_cluster_to_block : keeps.
+Lemma keeps_update_fat s0 vi c n : keeps s0 (update_fat vi c n). Proof. unfold update_fat. keeps_go. Qed.
+Lemma keeps_next_cluster s0 v c : keeps s0 (next_cluster v c). Proof. unfold next_cluster. keeps_go. Qed.
+#[export] Hint Resolve keeps_update_fat keeps_next_cluster : keeps.
+Lemma keeps_find_next_free_loop s0 v endc : forall fuel cur, keeps s0 (find_next_free_loop fuel v cur endc).
+Proof. induction fuel as [|fuel IH]; intros cur; cbn [find_next_free_loop]; keeps_go. Qed.
+Lemma keeps_find_next_free_cluster s0 v a b : keeps s0 (find_next_free_cluster v a b).
+Proof. unfold find_next_free_cluster. apply keeps_find_next_free_loop. Qed.
+#[export] Hint Resolve keeps_find_next_free_cluster : keeps.
+Lemma keeps_zero_cluster s0 v c : keeps s0 (zero_cluster v c).
+Proof. unfold zero_cluster. keeps_go. apply keeps_for_blocks. intros i. keeps_go. Qed.
+#[export] Hint Resolve keeps_zero_cluster : keeps.
+Lemma keeps_alloc_cluster s0 vi p z : keeps s0 (alloc_cluster vi p z).
+Proof. unfold alloc_cluster. keeps_go. Qed.
+Lemma keeps_bump_free s0 vi : keeps s0 (bump_free vi). Proof. unfold bump_free. keeps_go. Qed.
+#[export] Hint Resolve keeps_alloc_cluster keeps_bump_free : keeps.
+Lemma keeps_truncate_loop s0 vi : forall fuel next, keeps s0 (truncate_loop fuel vi next).
+Proof. induction fuel as [|fuel IH]; intros next; cbn [truncate_loop]; keeps_go. Qed.
+#[export] Hint Resolve keeps_truncate_loop : keeps.
+Lemma keeps_truncate_cluster_chain s0 vi c : keeps s0 (truncate_cluster_chain vi c).
+Proof. unfold truncate_cluster_chain. keeps_go. Qed.
+#[export] Hint Resolve keeps_truncate_cluster_chain : keeps.
+Lemma keeps_free_cluster_chain s0 vi c : keeps s0 (free_cluster_chain vi c).
+Proof. unfold free_cluster_chain. keeps_go. Qed.
+Lemma keeps_write_entry_to_disk s0 v e : keeps s0 (write_entry_to_disk v e).
+Proof. unfold write_entry_to_disk. keeps_go. Qed.
+Lemma keeps_update_info_sector s0 vi : keeps s0 (update_info_sector vi).
+Proof. unfold update_info_sector. keeps_go. Qed.
+#[export] Hint Resolve keeps_free_cluster_chain keeps_write_entry_to_disk keeps_update_info_sector : keeps.
+
+Lemma keeps_walk_dir s0 {R} vi grow (body : N -> M (option R)) :
+  (forall blk, keeps s0 (body blk)) -> forall fuel cluster, keeps s0 (walk_dir fuel vi cluster grow body).
+Proof.
+  intros Hb. induction fuel as [|fuel IH]; intros cluster; cbn [walk_dir]; keeps_go.
+Qed.
+
+Lemma keeps_find_directory_entry s0 vi c name : keeps s0 (find_directory_entry vi c name).
+Proof. unfold find_directory_entry. keeps_go. apply keeps_walk_dir. intros blk. keeps_go. Qed.
+Lemma keeps_iter_blocks s0 fat32 : forall n i acc, keeps s0 (iter_blocks n fat32 i acc).
+Proof. induction n as [|n IH]; intros i acc; cbn [iter_blocks]; keeps_go. Qed.
+#[export] Hint Resolve keeps_find_directory_entry keeps_iter_blocks : keeps.
+Lemma keeps_iter_walk s0 vi : forall fuel c acc, keeps s0 (iter_walk fuel vi c acc).
+Proof. induction fuel as [|fuel IH]; intros c acc; cbn [iter_walk]; keeps_go. Qed.
+#[export] Hint Resolve keeps_iter_walk : keeps.
+Lemma keeps_iterate_dir_all s0 vi c : keeps s0 (iterate_dir_all vi c).
+Proof. unfold iterate_dir_all. keeps_go. Qed.
+Lemma keeps_delete_directory_entry s0 vi c name : keeps s0 (delete_directory_entry vi c name).
+Proof. unfold delete_directory_entry. keeps_go. apply keeps_walk_dir. intros blk. keeps_go. Qed.
+Lemma keeps_write_new_directory_entry s0 vi c name a fc : keeps s0 (write_new_directory_entry vi c name a fc).
+Proof. unfold write_new_directory_entry. keeps_go. apply keeps_walk_dir. intros blk. keeps_go. Qed.
+#[export] Hint Resolve keeps_iterate_dir_all keeps_delete_directory_entry keeps_write_new_directory_entry : keeps.
+Lemma keeps_make_dir s0 vi p sfn att : keeps s0 (make_dir vi p sfn att).
+Proof. unfold make_dir. keeps_go. apply keeps_for_blocks_from. intros i. keeps_go. Qed.
+#[export] Hint Resolve keeps_make_dir : keeps.
+
+(* ---- FsMgr.v: everything that neither opens nor closes ---- *)
+Lemma keeps_file_is_open s0 v e : keeps s0 (file_is_open v e). Proof. unfold file_is_open. keeps_go. Qed.
+Lemma keeps_bpb_create s0 b : keeps s0 (bpb_create b). Proof. unfold bpb_create. keeps_go. Qed.
+#[export] Hint Resolve keeps_file_is_open keeps_bpb_create : keeps.
+Lemma keeps_parse_volume s0 a b c d : keeps s0 (parse_volume a b c d). Proof. unfold parse_volume. keeps_go. Qed.
+#[export] Hint Resolve keeps_parse_volume : keeps.
+Lemma keeps_mgr_find s0 d name : keeps s0 (mgr_find d name). Proof. unfold mgr_find. keeps_go. Qed.
+Lemma keeps_delete_file_in_dir s0 d name : keeps s0 (delete_file_in_dir d name).
+Proof. unfold delete_file_in_dir. keeps_go. Qed.
+Lemma keeps_make_dir_in_dir s0 d name : keeps s0 (make_dir_in_dir d name).
+Proof. unfold make_dir_in_dir. keeps_go. Qed.
+Lemma keeps_fdod_walk s0 v : forall n so sc, keeps s0 (fdod_walk n v so sc).
+Proof. induction n as [|n IH]; intros so sc; cbn [fdod_walk]; keeps_go. Qed.
+#[export] Hint Resolve keeps_fdod_walk : keeps.
+Lemma keeps_find_data_on_disk s0 vi st fs d : keeps s0 (find_data_on_disk vi st fs d).
+Proof. unfold find_data_on_disk. keeps_go. Qed.
+#[export] Hint Resolve keeps_find_data_on_disk : keeps.
+Lemma keeps_f_left s0 f : keeps s0 (f_left f). Proof. unfold f_left. keeps_go. Qed.
+#[export] Hint Resolve keeps_f_left : keeps.
+Lemma keeps_read_loop s0 fi vi : forall fuel space acc, keeps s0 (read_loop fuel fi vi space acc).
+Proof. induction fuel as [|fuel IH]; intros space acc; cbn [read_loop]; keeps_go. Qed.
+#[export] Hint Resolve keeps_read_loop : keeps.
+Lemma keeps_mgr_read s0 f n : keeps s0 (mgr_read f n). Proof. unfold mgr_read. keeps_go. Qed.
+Lemma keeps_write_loop s0 fi vi : forall fuel data, keeps s0 (write_loop fuel fi vi data).
+Proof. induction fuel as [|fuel IH]; intros data; cbn [write_loop]; keeps_go. Qed.
+#[export] Hint Resolve keeps_write_loop : keeps.
+Lemma keeps_mgr_write s0 f data : keeps s0 (mgr_write f data). Proof. unfold mgr_write. keeps_go. Qed.
+Lemma keeps_flush_file s0 f : keeps s0 (flush_file f). Proof. unfold flush_file. keeps_go. Qed.
+Lemma keeps_has_open_handles s0 : keeps s0 has_open_handles. Proof. unfold has_open_handles. keeps_go. Qed.
+Lemma keeps_file_eof s0 f : keeps s0 (file_eof f). Proof. unfold file_eof, with_file. keeps_go. Qed.
+Lemma keeps_file_length s0 f : keeps s0 (file_length f). Proof. unfold file_length, with_file. keeps_go. Qed.
+Lemma keeps_file_offset s0 f : keeps s0 (file_offset f). Proof. unfold file_offset, with_file. keeps_go. Qed.
+Lemma keeps_seek_start s0 f x : keeps s0 (file_seek_from_start f x).
+Proof. unfold file_seek_from_start, with_file. keeps_go. Qed.
+Lemma keeps_seek_end s0 f x : keeps s0 (file_seek_from_end f x).
+Proof. unfold file_seek_from_end, with_file. keeps_go. Qed.
+Lemma keeps_seek_cur s0 f x : keeps s0 (file_seek_from_current f x).
+Proof. unfold file_seek_from_current, with_file. keeps_go. Qed.
+#[export] Hint Resolve keeps_mgr_find keeps_delete_file_in_dir keeps_make_dir_in_dir keeps_mgr_read keeps_mgr_write
+  keeps_flush_file keeps_has_open_handles keeps_file_eof keeps_file_length keeps_file_offset keeps_seek_start
+  keeps_seek_end keeps_seek_cur : keeps.
+Lemma keeps_io_seek s0 f w x : keeps s0 (io_seek f w x). Proof. unfold io_seek. keeps_go. Qed.
+Lemma keeps_io_read s0 f n : keeps s0 (io_read f n). Proof. unfold io_read. keeps_go. Qed.
+Lemma keeps_io_write s0 f d : keeps s0 (io_write f d). Proof. unfold io_write. keeps_go. Qed.
+#[export] Hint Resolve keeps_io_seek keeps_io_read keeps_io_write : keeps.
+
+(* the listing part of iterate_dir keeps the shape, so the lock is still free after it:
+   the state after an iteration whose callback made a refused call is exactly the state
+   after the listing *)
+Lemma keeps_iter_listing s0 d : keeps s0 (iter_listing d). Proof. unfold iter_listing. keeps_go. Qed.
+
+Lemma set_s_lock_id s b : s_lock s = b -> set_s_lock s b = s.
+Proof. destruct s; cbn; intros <-; reflexivity. Qed.
+
+Theorem C08_reentrant_in_callback_state : forall d o' s,
+  s_lock s = false -> result_returning o' = true ->
+  snd (step (Iter d (Some o')) s) = snd (iter_listing d s) /\
+  same_tables_shape s (snd (step (Iter d (Some o')) s)).
+Proof.
+  intros d o' s H Hr. rewrite (C08_reentrant_in_callback d o' s H Hr).
+  destruct (iter_listing d s) as [o1 s1] eqn:E.
+  pose proof (keeps_frame _ (fun s0 => keeps_iter_listing s0 d) _ _ _ E) as Hs.
+  assert (Hl : s_lock s1 = false) by (destruct Hs as (_ & _ & _ & _ & Hl & _); congruence).
+  destruct o1 as [[|e0 shown]| | |]; cbn [snd]; try (split; [reflexivity | exact Hs]).
+  rewrite (set_s_lock_id s1 false Hl). split; [reflexivity | exact Hs].
+Qed.
+
+(* ================================================================== 4b/5a. the calls that open *)
+Inductive kind := KV | KD | KF.
+
+(* ids, lock, limits as in s0; the counter advanced by one: an id was generated and dropped *)
+Definition burned (s0 s : st) : Prop :=
+  vids s = vids s0 /\ dids s = dids s0 /\ fids s = fids s0 /\
+  s_next_id s = (s_next_id s0 + 1) mod U32 /\ s_lock s = s_lock s0 /\
+  s_maxv s = s_maxv s0 /\ s_maxd s = s_maxd s0 /\ s_maxf s = s_maxf s0.
+
+(* exactly one id - the old counter value - was appended to the table of kind K, which had room *)
+Definition pushed (K : kind) (s0 s : st) : Prop :=
+  s_next_id s = (s_next_id s0 + 1) mod U32 /\ s_lock s = s_lock s0 /\
+  s_maxv s = s_maxv s0 /\ s_maxd s = s_maxd s0 /\ s_maxf s = s_maxf s0 /\
+  match K with
+  | KV => is_full (s_vols s0) (s_maxv s0) = false /\
+          vids s = vids s0 ++ [s_next_id s0] /\ dids s = dids s0 /\ fids s = fids s0
+  | KD => is_full (s_dirs s0) (s_maxd s0) = false /\
+          vids s = vids s0 /\ dids s = dids s0 ++ [s_next_id s0] /\ fids s = fids s0
+  | KF => is_full (s_files s0) (s_maxf s0) = false /\
+          vids s = vids s0 /\ dids s = dids s0 /\ fids s = fids s0 ++ [s_next_id s0]
+  end.
+
+(* the three ways an opening call can end *)
+Definition Fin (K : kind) (s0 : st) (o : outcome N) (s : st) : Prop :=
+  ((forall h, o <> Ok h) /\ (same_tables_shape s0 s \/ burned s0 s)) \/
+  (o = Ok (s_next_id s0) /\ pushed K s0 s).
+
+Definition J0 (K : kind) (s0 : st) (m : M N) : Prop :=
+  forall s o s', same_tables_shape s0 s -> m s = (o, s') -> Fin K s0 o s'.
+Definition J1 (K : kind) (s0 : st) (m : M N) : Prop :=
+  forall s o s', burned s0 s -> m s = (o, s') -> Fin K s0 o s'.
+
+Lemma burned_shape s0 s s1 : burned s0 s -> same_tables_shape s s1 -> burned s0 s1.
+Proof.
+  unfold burned, same_tables_shape.
+  intros (A1 & A2 & A3 & A4 & A5 & A6 & A7 & A8) (B1 & B2 & B3 & B4 & B5 & B6 & B7 & B8).
+  repeat split; congruence.
+Qed.
+
+Ltac st_cbn := cbn [s_disk s_cache s_tag s_vols s_dirs s_files s_next_id s_clock s_ncalls s_faults s_trace
+  s_lock s_maxv s_maxd s_maxf set_s_disk set_s_cache set_s_tag set_s_vols set_s_dirs set_s_files
+  set_s_next_id set_s_clock set_s_ncalls set_s_faults set_s_trace set_s_lock set_s_maxv set_s_maxd set_s_maxf].
+
+Lemma J0_fail K s0 e : J0 K s0 (fail e).
+Proof. intros s o s' H E. inversion E; subst. left. split; [intros h; discriminate | left; exact H]. Qed.
+Lemma J0_panic K s0 : J0 K s0 panic.
+Proof. intros s o s' H E. inversion E; subst. left. split; [intros h; discriminate | left; exact H]. Qed.
+Lemma J1_fail K s0 e : J1 K s0 (fail e).
+Proof. intros s o s' H E. inversion E; subst. left. split; [intros h; discriminate | right; exact H]. Qed.
+Lemma J1_panic K s0 : J1 K s0 panic.
+Proof. intros s o s' H E. inversion E; subst. left. split; [intros h; discriminate | right; exact H]. Qed.
+
+Lemma J0_bind K s0 {A} (m : M A) (k : A -> M N) :
+  keeps s0 m -> (forall a, J0 K s0 (k a)) -> J0 K s0 (bind m k).
+Proof.
+  intros Hm Hk s o s' H E. unfold bind in E.
+  destruct (m s) as [[a|e| |] s1] eqn:Em; pose proof (Hm _ _ _ H Em) as H1.
+  - exact (Hk a _ _ _ H1 E).
+  - inversion E; subst. left. split; [intros h; discriminate | left; exact H1].
+  - inversion E; subst. left. split; [intros h; discriminate | left; exact H1].
+  - inversion E; subst. left. split; [intros h; discriminate | left; exact H1].
+Qed.
+
+Lemma J1_bind K s0 {A} (m : M A) (k : A -> M N) :
+  (forall s1, keeps s1 m) -> (forall a, J1 K s0 (k a)) -> J1 K s0 (bind m k).
+Proof.
+  intros Hm Hk s o s' H E. unfold bind in E.
+  destruct (m s) as [[a|e| |] s1] eqn:Em;
+    pose proof (burned_shape _ _ _ H (Hm s _ _ _ (shape_refl s) Em)) as H1.
+  - exact (Hk a _ _ _ H1 E).
+  - inversion E; subst. left. split; [intros h; discriminate | right; exact H1].
+  - inversion E; subst. left. split; [intros h; discriminate | right; exact H1].
+  - inversion E; subst. left. split; [intros h; discriminate | right; exact H1].
+Qed.
+
+Lemma J0_generate K s0 (k : N -> M N) : J1 K s0 (k (s_next_id s0)) -> J0 K s0 (bind generate k).
+Proof.
+  intros Hk s o s' H E. rewrite (bind_ok _ _ _ _ _ (generate_spec s)) in E.
+  destruct H as (H1 & H2 & H3 & H4 & H5 & H6 & H7 & H8).
+  rewrite H4 in E. refine (Hk _ _ _ _ E).
+  unfold burned, vids, dids, fids in *. st_cbn. repeat split; assumption.
+Qed.
+
+Lemma is_full_map {A} (g : A -> N) (l l0 : list A) cap cap0 :
+  map g l = map g l0 -> cap = cap0 -> is_full l cap = is_full l0 cap0.
+Proof.
+  intros H ->. unfold is_full. apply (f_equal (@length N)) in H. rewrite !map_length in H.
+  rewrite H. reflexivity.
+Qed.
+
+(* leaves: the push that follows the generated id *)
+Lemma J1_push_file s0 f :
+  is_full (s_files s0) (s_maxf s0) = false -> f_id f = s_next_id s0 ->
+  J1 KF s0 (push_file f ;;; ret (s_next_id s0)).
+Proof.
+  intros Hf Hid s o s' H E. unfold bind, push_file, modify, ret in E. inversion E; subst. clear E.
+  right. split; [reflexivity|].
+  destruct H as (H1 & H2 & H3 & H4 & H5 & H6 & H7 & H8).
+  unfold pushed, vids, dids, fids in *. st_cbn. repeat split; try assumption.
+  rewrite map_app, H3. cbn. rewrite Hid. reflexivity.
+Qed.
+
+Lemma J1_push_dir s0 d :
+  d_id d = s_next_id s0 -> J1 KD s0 (push_dir d ;;; ret (s_next_id s0)).
+Proof.
+  intros Hid s o s' H E. unfold push_dir in E. unfold bind at 1 in E. rewrite bind_get in E.
+  destruct H as (H1 & H2 & H3 & H4 & H5 & H6 & H7 & H8).
+  assert (Hfull : is_full (s_dirs s) (s_maxd s) = is_full (s_dirs s0) (s_maxd s0))
+    by (apply (is_full_map d_id); assumption).
+  rewrite Hfull in E.
+  destruct (is_full (s_dirs s0) (s_maxd s0)) eqn:Hf.
+  - inversion E; subst. left. split; [intros h; discriminate|]. right.
+    unfold burned. repeat split; assumption.
+  - unfold modify, ret in E. inversion E; subst. clear E. right. split; [reflexivity|].
+    unfold pushed, vids, dids, fids in *. st_cbn. repeat split; try assumption.
+    rewrite map_app, H2. cbn. rewrite Hid. reflexivity.
+Qed.
+
+Lemma J1_push_vol s0 v :
+  is_full (s_vols s0) (s_maxv s0) = false -> v_id v = s_next_id s0 ->
+  J1 KV s0 (modify (fun s => set_s_vols s (s_vols s ++ [v])) ;;; ret (s_next_id s0)).
+Proof.
+  intros Hf Hid s o s' H E. unfold bind, modify, ret in E. inversion E; subst. clear E.
+  right. split; [reflexivity|].
+  destruct H as (H1 & H2 & H3 & H4 & H5 & H6 & H7 & H8).
+  unfold pushed, vids, dids, fids in *. st_cbn. repeat split; try assumption.
+  rewrite map_app, H1. cbn. rewrite Hid. reflexivity.
+Qed.
+
+Ltac J_step :=
+  match goal with
+  | |- J0 _ _ (fail _) => apply J0_fail
+  | |- J0 _ _ panic => apply J0_panic
+  | |- J1 _ _ (fail _) => apply J1_fail
+  | |- J1 _ _ panic => apply J1_panic
+  | |- J0 _ _ (bind generate _) => apply J0_generate
+  | |- J0 _ _ (bind _ _) => apply J0_bind; [solve [keeps_go] | intros ?]
+  | |- J1 _ _ (push_file _ ;;; ret _) => apply J1_push_file; [assumption | reflexivity]
+  | |- J1 _ _ (push_dir _ ;;; ret _) => apply J1_push_dir; reflexivity
+  | |- J1 _ _ (modify _ ;;; ret _) => apply J1_push_vol; [assumption | reflexivity]
+  | |- J1 _ _ (bind _ _) => apply J1_bind; [intros ?; solve [keeps_go] | intros ?]
+  | |- _ (if ?b then _ else _) => destruct b
+  | |- _ (match ?x with _ => _ end) => destruct x
+  end.
+Ltac J_go := repeat J_step.
+
+Lemma Fin_err K s e : Fin K s (@Err N e) s.
+Proof. left. split; [intros h; discriminate | left; apply shape_refl]. Qed.
+
+Lemma J0_bind_get K s0 (k : st -> M N) :
+  (forall s1, same_tables_shape s0 s1 -> J0 K s0 (k s1)) -> J0 K s0 (bind get k).
+Proof. intros Hk s o s' H E. rewrite bind_get in E. exact (Hk s H _ _ _ H E). Qed.
+
+Lemma J0_locked K s0 m : J0 K s0 m -> J0 K s0 (locked m).
+Proof.
+  intros Hm. unfold locked. apply J0_bind_get. intros s1 _.
+  destruct (s_lock s1); [apply J0_fail | exact Hm].
+Qed.
+
+Lemma full_vols s0 s1 : same_tables_shape s0 s1 ->
+  is_full (s_vols s1) (s_maxv s1) = is_full (s_vols s0) (s_maxv s0).
+Proof. intros (H1 & H2 & H3 & H4 & H5 & H6 & H7 & H8). apply (is_full_map v_id); assumption. Qed.
+Lemma full_dirs s0 s1 : same_tables_shape s0 s1 ->
+  is_full (s_dirs s1) (s_maxd s1) = is_full (s_dirs s0) (s_maxd s0).
+Proof. intros (H1 & H2 & H3 & H4 & H5 & H6 & H7 & H8). apply (is_full_map d_id); assumption. Qed.
+Lemma full_files s0 s1 : same_tables_shape s0 s1 ->
+  is_full (s_files s1) (s_maxf s1) = is_full (s_files s0) (s_maxf s0).
+Proof. intros (H1 & H2 & H3 & H4 & H5 & H6 & H7 & H8). apply (is_full_map f_id); assumption. Qed.
+
+Theorem open_raw_volume_fin idx s o s' : open_raw_volume idx s = (o, s') -> Fin KV s o s'.
+Proof.
+  intros E. refine ((_ : J0 KV s (open_raw_volume idx)) s o s' (shape_refl s) E). clear.
+  unfold open_raw_volume. apply J0_locked. apply J0_bind_get. intros s1 Hs1.
+  rewrite (full_vols _ _ Hs1).
+  destruct (is_full (s_vols s) (s_maxv s)) eqn:Hf; [apply J0_fail|].
+  cbv zeta. J_go.
+Qed.
+
+Theorem open_root_dir_fin v s o s' : open_root_dir v s = (o, s') -> Fin KD s o s'.
+Proof.
+  intros E. refine ((_ : J0 KD s (open_root_dir v)) s o s' (shape_refl s) E). clear.
+  unfold open_root_dir. apply J0_locked. J_go.
+Qed.
+
+Theorem open_dir_fin d name s o s' : open_dir d name s = (o, s') -> Fin KD s o s'.
+Proof.
+  intros E. refine ((_ : J0 KD s (open_dir d name)) s o s' (shape_refl s) E). clear.
+  unfold open_dir. apply J0_locked. apply J0_bind_get. intros s1 Hs1.
+  rewrite (full_dirs _ _ Hs1).
+  destruct (is_full (s_dirs s) (s_maxd s)) eqn:Hf; [apply J0_fail|].
+  J_go.
+Qed.
+
+Theorem open_file_in_dir_fin d name md s o s' : open_file_in_dir d name md s = (o, s') -> Fin KF s o s'.
+Proof.
+  intros E. refine ((_ : J0 KF s (open_file_in_dir d name md)) s o s' (shape_refl s) E). clear.
+  unfold open_file_in_dir. apply J0_locked. apply J0_bind_get. intros s1 Hs1.
+  rewrite (full_files _ _ Hs1).
+  destruct (is_full (s_files s) (s_maxf s)) eqn:Hf; [apply J0_fail|].
+  cbv zeta. J_go.
+Qed.
+
+(* ================================================================== 4c. the calls that close, and the summary of every call *)
+Definition all_ids (s : st) : list N := vids s ++ dids s ++ fids s.
+Definition limits_eq (s s' : st) : Prop :=
+  s_maxv s' = s_maxv s /\ s_maxd s' = s_maxd s /\ s_maxf s' = s_maxf s.
+Definition within_limits (s : st) : Prop :=
+  N.of_nat (length (s_vols s)) <= s_maxv s /\ N.of_nat (length (s_dirs s)) <= s_maxd s /\
+  N.of_nat (length (s_files s)) <= s_maxf s.
+
+(* the tables only lose entries; counter and limits equal (the lock is not constrained) *)
+Definition shrunk (s s' : st) : Prop :=
+  limits_eq s s' /\ s_next_id s' = s_next_id s /\
+  (length (s_vols s') <= length (s_vols s))%nat /\ (length (s_dirs s') <= length (s_dirs s))%nat /\
+  (length (s_files s') <= length (s_files s))%nat /\
+  incl (vids s') (vids s) /\ incl (dids s') (dids s) /\ incl (fids s') (fids s).
+
+Lemma shrunk_refl s : shrunk s s.
+Proof. unfold shrunk, limits_eq. repeat split; auto using incl_refl. Qed.
+Lemma shrunk_trans a b c : shrunk a b -> shrunk b c -> shrunk a c.
+Proof.
+  unfold shrunk, limits_eq.
+  intros ((A1 & A2 & A3) & A4 & A5 & A6 & A7 & A8 & A9 & A10) ((B1 & B2 & B3) & B4 & B5 & B6 & B7 & B8 & B9 & B10).
+  repeat split; try congruence; try lia; eapply incl_tran; eassumption.
+Qed.
+Lemma map_eq_length {A} (g : A -> N) l l' : map g l' = map g l -> length l' = length l.
+Proof. intros H. apply (f_equal (@length N)) in H. rewrite !map_length in H. exact H. Qed.
+Lemma shape_shrunk s s' : same_tables_shape s s' -> shrunk s s'.
+Proof.
+  intros (H1 & H2 & H3 & H4 & H5 & H6 & H7 & H8). unfold shrunk, limits_eq, vids, dids, fids in *.
+  rewrite H1, H2, H3, (map_eq_length _ _ _ H1), (map_eq_length _ _ _ H2), (map_eq_length _ _ _ H3).
+  repeat split; auto using incl_refl.
+Qed.
+Lemma shrunk_lock s b : shrunk s (set_s_lock s b).
+Proof. unfold shrunk, limits_eq. repeat split; auto using incl_refl. Qed.
+
+Lemma swap_remove_length_le {A} (l : list A) i : (length (swap_remove l i) <= length l)%nat.
+Proof.
+  unfold swap_remove. destruct (rev l); [lia|].
+  destruct (Nat.eqb i (length l - 1)); rewrite firstn_length; try rewrite list_set_length; lia.
+Qed.
+Lemma swap_remove_incl_map {A} (g : A -> N) (l : list A) i : incl (map g (swap_remove l i)) (map g l).
+Proof.
+  intros x Hx. apply in_map_iff in Hx. destruct Hx as (y & <- & Hy).
+  apply in_map. eapply swap_remove_subset. exact Hy.
+Qed.
+
+Lemma shrunk_remove_vol s i : shrunk s (set_s_vols s (swap_remove (s_vols s) i)).
+Proof.
+  unfold shrunk, limits_eq, vids, dids, fids. st_cbn.
+  repeat split; auto using incl_refl, swap_remove_length_le, swap_remove_incl_map.
+Qed.
+Lemma shrunk_remove_dir s i : shrunk s (set_s_dirs s (swap_remove (s_dirs s) i)).
+Proof.
+  unfold shrunk, limits_eq, vids, dids, fids. st_cbn.
+  repeat split; auto using incl_refl, swap_remove_length_le, swap_remove_incl_map.
+Qed.
+Lemma shrunk_remove_file s i : shrunk s (set_s_files s (swap_remove (s_files s) i)).
+Proof.
+  unfold shrunk, limits_eq, vids, dids, fids. st_cbn.
+  repeat split; auto using incl_refl, swap_remove_length_le, swap_remove_incl_map.
+Qed.
+
+Lemma get_dir_by_id_eq h s : get_dir_by_id h s =
+  match find_idx (fun d => d_id d =? h) (s_dirs s) 0 with Some i => (Ok i, s) | None => (Err BadHandle, s) end.
+Proof. unfold get_dir_by_id. rewrite bind_get. destruct (find_idx _ _ _); reflexivity. Qed.
+Lemma get_file_by_id_eq h s : get_file_by_id h s =
+  match find_idx (fun f => f_id f =? h) (s_files s) 0 with Some i => (Ok i, s) | None => (Err BadHandle, s) end.
+Proof. unfold get_file_by_id. rewrite bind_get. destruct (find_idx _ _ _); reflexivity. Qed.
+Lemma get_volume_by_id_eq h s : get_volume_by_id h s =
+  match find_idx (fun v => v_id v =? h) (s_vols s) 0 with Some i => (Ok i, s) | None => (Err BadHandle, s) end.
+Proof. unfold get_volume_by_id. rewrite bind_get. destruct (find_idx _ _ _); reflexivity. Qed.
+
+Theorem close_dir_shrunk d s o s' : close_dir d s = (o, s') -> shrunk s s'.
+Proof.
+  intros E. unfold close_dir in E. destruct (s_lock s) eqn:Hl.
+  { rewrite (locked_held _ s Hl) in E. inversion E; subst. apply shrunk_refl. }
+  rewrite (locked_free _ s Hl) in E. unfold bind in E. rewrite get_dir_by_id_eq in E.
+  destruct (find_idx _ _ _) as [i|]; inversion E; subst; [apply shrunk_remove_dir | apply shrunk_refl].
+Qed.
+
+Theorem close_volume_shrunk v s o s' : close_volume v s = (o, s') -> shrunk s s'.
+Proof.
+  intros E. unfold close_volume in E. destruct (s_lock s) eqn:Hl.
+  { rewrite (locked_held _ s Hl) in E. inversion E; subst. apply shrunk_refl. }
+  rewrite (locked_free _ s Hl), bind_get in E.
+  destruct (existsb _ (s_files s)); [inversion E; subst; apply shrunk_refl|].
+  destruct (existsb _ (s_dirs s)); [inversion E; subst; apply shrunk_refl|].
+  unfold bind at 1 in E. rewrite get_volume_by_id_eq in E.
+  destruct (find_idx _ _ _) as [vi|]; [|inversion E; subst; apply shrunk_refl].
+  unfold bind in E.
+  destruct (update_info_sector vi s) as [o1 s1] eqn:E1.
+  pose proof (shape_shrunk _ _ (keeps_frame _ (fun s0 => keeps_update_info_sector s0 vi) _ _ _ E1)) as H1.
+  destruct o1; inversion E; subst; try exact H1.
+  eapply shrunk_trans; [exact H1 | apply shrunk_remove_vol].
+Qed.
+
+Theorem close_file_shrunk f s o s' : close_file f s = (o, s') -> shrunk s s'.
+Proof.
+  intros E. unfold close_file in E. unfold bind at 1 in E. unfold try in E.
+  destruct (flush_file f s) as [o1 s1] eqn:E1.
+  pose proof (shape_shrunk _ _ (keeps_frame _ (fun s0 => keeps_flush_file s0 f) _ _ _ E1)) as H1.
+  assert (Htail : forall r : unit + err, locked (fi <- get_file_by_id f ;;
+            modify (fun s => set_s_files s (swap_remove (s_files s) fi)) ;;;
+            match r with inl _ => ret tt | inr e => fail e end) s1 = (o, s') -> shrunk s s').
+  { intros r E2. eapply shrunk_trans; [exact H1|]. destruct (s_lock s1) eqn:Hl.
+    { rewrite (locked_held _ s1 Hl) in E2. inversion E2; subst. apply shrunk_refl. }
+    rewrite (locked_free _ s1 Hl) in E2. unfold bind at 1 in E2. rewrite get_file_by_id_eq in E2.
+    destruct (find_idx _ _ _) as [i|]; [|inversion E2; subst; apply shrunk_refl].
+    unfold bind, modify in E2.
+    destruct r; inversion E2; subst; apply shrunk_remove_file. }
+  destruct o1 as [a|e| |]; try (inversion E; subst; exact H1).
+  - exact (Htail (inl a) E).
+  - exact (Htail (inr e) E).
+Qed.
+
+(* ---- the summary of a call: limits equal, limits respected if they were, and the ids
+   in the tables are old ones, or old ones plus the old counter value (then the counter
+   advanced by one), or gone altogether (the harness-only Remount; W says its offset is a u32) *)
+Definition op_effect (W : Prop) (s s' : st) : Prop :=
+  limits_eq s s' /\ (within_limits s -> within_limits s') /\
+  ((s_next_id s' = s_next_id s /\ incl (all_ids s') (all_ids s)) \/
+   (s_next_id s' = (s_next_id s + 1) mod U32 /\ incl (all_ids s') (all_ids s ++ [s_next_id s])) \/
+   (all_ids s' = [] /\ (W -> s_next_id s' < U32))).
+
+Lemma shrunk_within s s' : shrunk s s' -> within_limits s -> within_limits s'.
+Proof.
+  unfold shrunk, limits_eq, within_limits.
+  intros ((A1 & A2 & A3) & A4 & A5 & A6 & A7 & A8 & A9 & A10) (B1 & B2 & B3).
+  rewrite A1, A2, A3. repeat split; lia.
+Qed.
+Lemma shrunk_incl s s' : shrunk s s' -> incl (all_ids s') (all_ids s).
+Proof.
+  intros (_ & _ & _ & _ & _ & A8 & A9 & A10). unfold all_ids.
+  apply incl_app; [apply incl_appl; exact A8|]. apply incl_appr.
+  apply incl_app; [apply incl_appl; exact A9 | apply incl_appr; exact A10].
+Qed.
+Lemma shrunk_effect W s s' : shrunk s s' -> op_effect W s s'.
+Proof.
+  intros H. split; [exact (proj1 H)|]. split; [apply shrunk_within; exact H|].
+  left. split; [exact (proj1 (proj2 H)) | apply shrunk_incl; exact H].
+Qed.
+Lemma incl_nil_eq {A} (l : list A) : incl l [] -> l = [].
+Proof. destruct l as [|x t]; [reflexivity|]. intros H. destruct (H x (or_introl eq_refl)). Qed.
+
+Lemma effect_shrunk_r W a b c : op_effect W a b -> shrunk b c -> op_effect W a c.
+Proof.
+  intros ((L1 & L2 & L3) & Hw & Hi) Hs.
+  pose proof Hs as ((M1 & M2 & M3) & Hn & _).
+  split; [unfold limits_eq; repeat split; congruence|].
+  split; [intros H; apply (shrunk_within _ _ Hs); apply Hw; exact H|].
+  pose proof (shrunk_incl _ _ Hs) as Hinc.
+  destruct Hi as [[H1 H2]|[[H1 H2]|[H1 H2]]].
+  - left. split; [congruence | eapply incl_tran; eassumption].
+  - right. left. split; [congruence | eapply incl_tran; eassumption].
+  - right. right. split; [apply incl_nil_eq; rewrite <- H1; exact Hinc | rewrite Hn; exact H2].
+Qed.
+Lemma effect_shrunk_l W a b c : shrunk a b -> op_effect W b c -> op_effect W a c.
+Proof.
+  intros Hs ((L1 & L2 & L3) & Hw & Hi).
+  pose proof Hs as ((M1 & M2 & M3) & Hn & _).
+  split; [unfold limits_eq; repeat split; congruence|].
+  split; [intros H; apply Hw; apply (shrunk_within _ _ Hs); exact H|].
+  pose proof (shrunk_incl _ _ Hs) as Hinc.
+  destruct Hi as [[H1 H2]|[[H1 H2]|[H1 H2]]].
+  - left. split; [congruence | eapply incl_tran; eassumption].
+  - right. left. split; [congruence|]. rewrite Hn in H2.
+    eapply incl_tran; [exact H2|]. apply incl_app; [apply incl_appl; exact Hinc | apply incl_appr, incl_refl].
+  - right. right. split; assumption.
+Qed.
+
+Lemma burned_effect W s s' : burned s s' -> op_effect W s s'.
+Proof.
+  intros (H1 & H2 & H3 & H4 & H5 & H6 & H7 & H8).
+  split; [unfold limits_eq; auto|]. split.
+  - unfold within_limits. intros (B1 & B2 & B3). unfold vids, dids, fids in *.
+    rewrite (map_eq_length _ _ _ H1), (map_eq_length _ _ _ H2), (map_eq_length _ _ _ H3), H6, H7, H8. auto.
+  - right. left. split; [exact H4|]. unfold all_ids. rewrite H1, H2, H3. apply incl_appl, incl_refl.
+Qed.
+
+Lemma pushed_effect W K s s' : pushed K s s' -> op_effect W s s'.
+Proof.
+  intros (Hn & Hl & L1 & L2 & L3 & HK).
+  split; [unfold limits_eq; auto|].
+  assert (Hlen : forall (A B : Type) (g : A -> N) (g' : B -> N) l' l x cap, map g' l' = map g l ++ [x] ->
+            is_full l cap = false -> N.of_nat (length l') <= cap).
+  { intros A B g g' l' l x cap Hm Hf. apply (f_equal (@length N)) in Hm.
+    rewrite app_length, !map_length in Hm. cbn in Hm. unfold is_full in Hf. apply N.leb_gt in Hf. lia. }
+  unfold within_limits, all_ids, vids, dids, fids in *.
+  destruct K; destruct HK as (Hf & V & D & F).
+  - split.
+    + intros (B1 & B2 & B3). rewrite L1, L2, L3, (map_eq_length _ _ _ D), (map_eq_length _ _ _ F).
+      repeat split; try assumption. eapply Hlen; eassumption.
+    + right. left. split; [exact Hn|]. rewrite V, D, F. intros x Hx.
+      rewrite !in_app_iff in *. cbn in *. tauto.
+  - split.
+    + intros (B1 & B2 & B3). rewrite L1, L2, L3, (map_eq_length _ _ _ V), (map_eq_length _ _ _ F).
+      repeat split; try assumption. eapply Hlen; eassumption.
+    + right. left. split; [exact Hn|]. rewrite V, D, F. intros x Hx.
+      rewrite !in_app_iff in *. cbn in *. tauto.
+  - split.
+    + intros (B1 & B2 & B3). rewrite L1, L2, L3, (map_eq_length _ _ _ V), (map_eq_length _ _ _ D).
+      repeat split; try assumption. eapply Hlen; eassumption.
+    + right. left. split; [exact Hn|]. rewrite V, D, F. intros x Hx.
+      rewrite !in_app_iff in *. cbn in *. tauto.
+Qed.
+
+Lemma Fin_effect W K s o s' : Fin K s o s' -> op_effect W s s'.
+Proof.
+  intros [[_ [H|H]]|[_ H]].
+  - apply shrunk_effect, shape_shrunk, H.
+  - apply burned_effect, H.
+  - eapply pushed_effect, H.
+Qed.
+
+(* iterate_dir with an arbitrary callback: the listing keeps the shape, the callback does
+   whatever it does (P), and the lock flips do not touch the tables *)
+Lemma mgr_iterate_rel (P : st -> st -> Prop) {R} d (inner : M R) :
+  (forall a, P a a) ->
+  (forall a b c, shrunk a b -> P b c -> P a c) -> (forall a b c, P a b -> shrunk b c -> P a c) ->
+  (forall s1 o1 s2, inner s1 = (o1, s2) -> P s1 s2) ->
+  forall s o s', mgr_iterate d inner s = (o, s') -> P s s'.
+Proof.
+  intros Prefl Pl Pr Hin s o s' E.
+  destruct (s_lock s) eqn:Hl.
+  { unfold mgr_iterate in E. rewrite (locked_held _ s Hl) in E. inversion E; subst. apply Prefl. }
+  rewrite (proj1 (C08_iterate_holds_lock R d inner s Hl)) in E.
+  destruct (iter_listing d s) as [o1 s1] eqn:E1.
+  pose proof (shape_shrunk _ _ (keeps_frame _ (fun s0 => keeps_iter_listing s0 d) _ _ _ E1)) as H1.
+  assert (Hs1 : P s s1) by (eapply Pr; [apply Prefl | exact H1]).
+  unfold iterate_outcome in E.
+  destruct o1 as [[|e0 shown]|e| |]; try (inversion E; subst; exact Hs1).
+  destruct (inner (set_s_lock s1 true)) as [o2 s2] eqn:E2.
+  assert (Hs2 : P s s2).
+  { eapply Pl; [exact H1|]. eapply Pl; [apply (shrunk_lock s1 true)|]. exact (Hin _ _ _ E2). }
+  destruct o2; inversion E; subst; try exact Hs2; (eapply Pr; [exact Hs2 | apply shrunk_lock]).
+Qed.
+
+Lemma mgr_iterate_ret_shrunk d s o s' : mgr_iterate d (ret tt) s = (o, s') -> shrunk s s'.
+Proof.
+  apply (mgr_iterate_rel shrunk).
+  - apply shrunk_refl.
+  - intros a b c; apply shrunk_trans.
+  - intros a b c; apply shrunk_trans.
+  - intros s1 o1 s2 E. inversion E; subst. apply shrunk_refl.
+Qed.
+
+Lemma effect_refl W s : op_effect W s s.
+Proof. apply shrunk_effect, shrunk_refl. Qed.
+
+Theorem label_effect W v s o s' : get_root_volume_label v s = (o, s') -> op_effect W s s'.
+Proof.
+  intros E. unfold get_root_volume_label in E. destruct (s_lock s) eqn:Hl.
+  { rewrite (locked_held _ s Hl) in E. inversion E; subst. apply effect_refl. }
+  rewrite (locked_free _ s Hl) in E. unfold bind at 1 in E. rewrite get_volume_by_id_eq in E.
+  destruct (find_idx _ _ _) as [vi|]; [|inversion E; subst; apply effect_refl].
+  unfold bind at 1 in E. rewrite get_vol_eq in E.
+  destruct (nth_error (s_vols s) vi) as [vv|]; [|inversion E; subst; apply effect_refl].
+  destruct (trim_rev (rev (v_name vv))); [|inversion E; subst; apply effect_refl].
+  unfold bind at 1 in E.
+  destruct (open_root_dir v s) as [o1 s1] eqn:E1.
+  pose proof (open_root_dir_fin _ _ _ _ E1) as HF.
+  pose proof (Fin_effect W _ _ _ _ HF) as H1.
+  destruct o1 as [rd|e| |]; try (inversion E; subst; exact H1).
+  unfold bind at 1 in E. unfold try at 1 in E.
+  destruct (mgr_iterate rd (ret tt) s1) as [o2 s2] eqn:E2.
+  pose proof (effect_shrunk_r _ _ _ _ H1 (mgr_iterate_ret_shrunk _ _ _ _ E2)) as H2.
+  assert (Htail : forall r : (list dirent * option (unit + err)) + err,
+     (_ <- try (close_dir rd) ;;
+      match r with
+      | inr e => fail e
+      | inl (es, _) => match filter (fun e => e_attr e =? A_VOLUME) es with
+                       | e :: _ => ret (Some (e_name e)) | [] => ret None end
+      end) s2 = (o, s') -> op_effect W s s').
+  { intros r E3. unfold bind, try in E3.
+    destruct (close_dir rd s2) as [o3 s3] eqn:E4.
+    pose proof (effect_shrunk_r _ _ _ _ H2 (close_dir_shrunk _ _ _ _ E4)) as H3.
+    destruct o3; try (inversion E3; subst; exact H3).
+    - destruct r as [[es x]|e]; [destruct (filter _ es)|]; inversion E3; subst; exact H3.
+    - destruct r as [[es x]|e0]; [destruct (filter _ es)|]; inversion E3; subst; exact H3. }
+  destruct o2 as [a|e| |]; try (inversion E; subst; exact H2).
+  - exact (Htail (inl a) E).
+  - exact (Htail (inr e) E).
+Qed.
+
+Lemma lift_state {A} (f : A -> res) (m : M A) s out s' : lift f m s = (out, s') -> exists o1, m s = (o1, s').
+Proof.
+  unfold lift, bind, ret. destruct (m s) as [[a|e| |] s1]; intros E; inversion E; subst; eexists; reflexivity.
+Qed.
+Lemma lift_ok_inv {A} (f : A -> res) (m : M A) s r s' : lift f m s = (Ok r, s') ->
+  exists a, m s = (Ok a, s') /\ r = f a.
+Proof.
+  unfold lift, bind, ret. destruct (m s) as [[a|e| |] s1]; intros E; inversion E; subst.
+  exists a. split; reflexivity.
+Qed.
+
+(* the offsets of the harness-only Remount ops inside o are u32 values *)
+Fixpoint remount_ok (o : op) : Prop :=
+  match o with
+  | Remount id => id < U32
+  | Iter _ (Some o') => remount_ok o'
+  | _ => True
+  end.
+
+(* EVERY op, every outcome *)
+Theorem step_effect : forall o s out s', step o s = (out, s') -> op_effect (remount_ok o) s s'.
+Proof.
+  fix IH 1. intros o s out s' E.
+  destruct o as [idx|v|v|d name|d|d name|d inner|d name m|f|f|f n|f data|f x|f x|f x|f|f|f|d name|d name|v| |f w x|f n|f data|id];
+    cbn [step] in E;
+    try (apply lift_state in E; destruct E as [o1 E]).
+  - eapply Fin_effect, open_raw_volume_fin, E.
+  - eapply shrunk_effect, close_volume_shrunk, E.
+  - eapply Fin_effect, open_root_dir_fin, E.
+  - eapply Fin_effect, open_dir_fin, E.
+  - eapply shrunk_effect, close_dir_shrunk, E.
+  - eapply shrunk_effect, shape_shrunk, (keeps_frame _ (fun s0 => keeps_mgr_find s0 d name)), E.
+  - (* Iter *)
+    revert s o1 s' E.
+    apply (mgr_iterate_rel (op_effect (remount_ok (Iter d inner)))).
+    + apply effect_refl.
+    + intros a b c; apply effect_shrunk_l.
+    + intros a b c; apply effect_shrunk_r.
+    + destruct inner as [o'|].
+      * intros s1 o1 s2 E. exact (IH o' _ _ _ E).
+      * intros s1 o1 s2 E. inversion E; subst. apply effect_refl.
+  - eapply Fin_effect, open_file_in_dir_fin, E.
+  - eapply shrunk_effect, close_file_shrunk, E.
+  - eapply shrunk_effect, shape_shrunk, (keeps_frame _ (fun s0 => keeps_flush_file s0 f)), E.
+  - eapply shrunk_effect, shape_shrunk, (keeps_frame _ (fun s0 => keeps_mgr_read s0 f n)), E.
+  - eapply shrunk_effect, shape_shrunk, (keeps_frame _ (fun s0 => keeps_mgr_write s0 f data)), E.
+  - eapply shrunk_effect, shape_shrunk, (keeps_frame _ (fun s0 => keeps_seek_start s0 f x)), E.
+  - eapply shrunk_effect, shape_shrunk, (keeps_frame _ (fun s0 => keeps_seek_cur s0 f x)), E.
+  - eapply shrunk_effect, shape_shrunk, (keeps_frame _ (fun s0 => keeps_seek_end s0 f x)), E.
+  - eapply shrunk_effect, shape_shrunk, (keeps_frame _ (fun s0 => keeps_file_length s0 f)), E.
+  - eapply shrunk_effect, shape_shrunk, (keeps_frame _ (fun s0 => keeps_file_offset s0 f)), E.
+  - eapply shrunk_effect, shape_shrunk, (keeps_frame _ (fun s0 => keeps_file_eof s0 f)), E.
+  - eapply shrunk_effect, shape_shrunk, (keeps_frame _ (fun s0 => keeps_delete_file_in_dir s0 d name)), E.
+  - eapply shrunk_effect, shape_shrunk, (keeps_frame _ (fun s0 => keeps_make_dir_in_dir s0 d name)), E.
+  - eapply label_effect, E.
+  - eapply shrunk_effect, shape_shrunk, (keeps_frame _ (fun s0 => keeps_has_open_handles s0)), E.
+  - eapply shrunk_effect, shape_shrunk, (keeps_frame _ (fun s0 => keeps_io_seek s0 f w x)), E.
+  - eapply shrunk_effect, shape_shrunk, (keeps_frame _ (fun s0 => keeps_io_read s0 f n)), E.
+  - eapply shrunk_effect, shape_shrunk, (keeps_frame _ (fun s0 => keeps_io_write s0 f data)), E.
+  - (* Remount *)
+    unfold remount, modify in E. inversion E; subst. clear E.
+    split; [unfold limits_eq; repeat split; reflexivity|].
+    split; [intros (B1 & B2 & B3); unfold within_limits; st_cbn; cbn [length]; repeat split; lia|].
+    right. right. split; [reflexivity|]. intros Hw. exact Hw.
+Qed.
+
+(* C08, limits: no call - whatever its outcome, including Panic - leaves more open objects
+   than configured, and no call changes the configuration *)
+Theorem C08_limits : forall o s, within_limits s -> within_limits (snd (step o s)).
+Proof.
+  intros o s H. destruct (step o s) as [out s'] eqn:E.
+  exact (proj1 (proj2 (step_effect o s out s' E)) H).
+Qed.
+Theorem C08_limits_constant : forall o s, limits_eq s (snd (step o s)).
+Proof.
+  intros o s. destruct (step o s) as [out s'] eqn:E. exact (proj1 (step_effect o s out s' E)).
+Qed.
+
+(* the call that would exceed a limit fails with the matching error.  Nothing changes,
+   except that open_root_dir has already drawn (and wasted) an id *)
+Theorem C08_limit_errors : forall s, s_lock s = false ->
+  (is_full (s_vols s) (s_maxv s) = true -> forall idx, step (OpenVol idx) s = (Err TooManyOpenVolumes, s)) /\
+  (is_full (s_dirs s) (s_maxd s) = true ->
+     (forall d name, step (OpenDir d name) s = (Err TooManyOpenDirs, s)) /\
+     (forall d name, step (Mkdir d name) s = (Err TooManyOpenDirs, s)) /\
+     (forall v, step (OpenRoot v) s = (Err TooManyOpenDirs, set_s_next_id s ((s_next_id s + 1) mod U32)))) /\
+  (is_full (s_files s) (s_maxf s) = true -> forall d name m, step (OpenFile d name m) s = (Err TooManyOpenFiles, s)).
+Proof.
+  intros s Hl. repeat split; intros; cbn [step]; apply lift_err.
+  - unfold open_raw_volume. rewrite (locked_free _ s Hl), bind_get, H. reflexivity.
+  - unfold open_dir. rewrite (locked_free _ s Hl), bind_get, H. reflexivity.
+  - unfold make_dir_in_dir. rewrite (locked_free _ s Hl), bind_get, H. reflexivity.
+  - unfold open_root_dir. rewrite (locked_free _ s Hl).
+    rewrite (bind_ok _ _ _ _ _ (generate_spec s)). apply bind_err.
+    unfold push_dir. rewrite bind_get. st_cbn. rewrite H. reflexivity.
+  - unfold open_file_in_dir. rewrite (locked_free _ s Hl), bind_get, H. reflexivity.
+Qed.
+
+(* a volume cannot be closed while anything on it is open, nor opened twice (when there is room) *)
+Theorem C08_volume_rules : forall s, s_lock s = false ->
+  (forall v, existsb (fun f => f_vol f =? v) (s_files s) || existsb (fun d => d_vol d =? v) (s_dirs s) = true ->
+     step (CloseVol v) s = (Err VolumeStillInUse, s)) /\
+  (forall idx, is_full (s_vols s) (s_maxv s) = false -> existsb (fun v => v_idx v =? idx) (s_vols s) = true ->
+     step (OpenVol idx) s = (Err VolumeAlreadyOpen, s)).
+Proof.
+  intros s Hl. split; intros; cbn [step]; apply lift_err.
+  - unfold close_volume. rewrite (locked_free _ s Hl), bind_get.
+    destruct (existsb _ (s_files s)); [reflexivity|]. cbn [orb] in H. rewrite H. reflexivity.
+  - unfold open_raw_volume. rewrite (locked_free _ s Hl), bind_get, H, H0. reflexivity.
+Qed.
+
+(* closing frees the slot: a directory handle that is in the table closes, and the table
+   is one shorter; nothing else changes *)
+Lemma find_idx_exists {A} (p : A -> bool) l : (exists x, In x l /\ p x = true) ->
+  forall i, exists j, find_idx p l i = Some j /\ (j - i < length l)%nat /\ (i <= j)%nat.
+Proof.
+  induction l as [|h t IH]; intros (x & Hin & Hp) i; [destruct Hin|].
+  cbn [find_idx]. destruct (p h) eqn:Hh.
+  - exists i. cbn. repeat split; lia.
+  - destruct Hin as [->|Hin]; [congruence|].
+    destruct (IH (ex_intro _ x (conj Hin Hp)) (S i)) as (j & Hj & Hlt & Hle).
+    exists j. cbn. repeat split; try assumption; lia.
+Qed.
+
+Theorem C08_close_dir_frees : forall h s, s_lock s = false ->
+  (exists d, In d (s_dirs s) /\ d_id d = h) ->
+  exists i, (i < length (s_dirs s))%nat /\
+    step (CloseDir h) s = (Ok RUnit, set_s_dirs s (swap_remove (s_dirs s) i)) /\
+    length (swap_remove (s_dirs s) i) = (length (s_dirs s) - 1)%nat.
+Proof.
+  intros h s Hl (d & Hin & Hid).
+  destruct (find_idx_exists (fun d => d_id d =? h) (s_dirs s)
+              (ex_intro _ d (conj Hin (proj2 (N.eqb_eq _ _) Hid))) 0) as (i & Hi & Hlt & _).
+  exists i. rewrite Nat.sub_0_r in Hlt. split; [exact Hlt|]. split; [|apply swap_remove_length; exact Hlt].
+  cbn [step]. apply (lift_ok (fun _ : unit => RUnit) (close_dir h) s tt).
+  unfold close_dir. rewrite (locked_free _ s Hl).
+  unfold bind. rewrite get_dir_by_id_eq, Hi. reflexivity.
+Qed.
+
+(* ================================================================== 5. freshness of handles *)
+(* every id in the three tables was drawn from the ONE counter between 1 and age_max
+   generations ago: id = (next - k) mod 2^32, written additively *)
+Definition fresh_inv (age_max : N) (s : st) : Prop :=
+  s_next_id s < U32 /\
+  forall x, In x (all_ids s) -> x < U32 /\ exists k, 1 <= k /\ k <= age_max /\ (x + k) mod U32 = s_next_id s.
+
+Lemma fresh_inv_distinct age_max s : age_max < U32 -> fresh_inv age_max s ->
+  forall x, In x (all_ids s) -> x <> s_next_id s.
+Proof.
+  intros Ha (Hn & H) x Hx. destruct (H x Hx) as (Hx32 & k & H1 & H2 & H3).
+  apply (window_fresh (s_next_id s) k x); try assumption; lia.
+Qed.
+
+Lemma fresh_inv_effect (W : Prop) age_max s s' : W -> op_effect W s s' -> fresh_inv age_max s -> fresh_inv (age_max + 1) s'.
+Proof.
+  intros HW (_ & _ & Hi) (Hn & H).
+  destruct Hi as [[H1 H2]|[[H1 H2]|[H1 H2]]].
+  - split; [congruence|]. intros x Hx. destruct (H x (H2 x Hx)) as (Hx32 & k & K1 & K2 & K3).
+    split; [exact Hx32|]. exists k. rewrite H1. repeat split; try assumption; lia.
+  - assert (Hu : 0 < U32) by (unfold U32; lia).
+    split; [rewrite H1; apply N.mod_lt; unfold U32; lia|].
+    intros x Hx. apply H2 in Hx. apply in_app_iff in Hx. destruct Hx as [Hx|[<-|[]]].
+    + destruct (H x Hx) as (Hx32 & k & K1 & K2 & K3). split; [exact Hx32|].
+      exists (k + 1). rewrite H1, <- K3. repeat split; try lia.
+      rewrite N.add_assoc. rewrite N.add_mod_idemp_l by (unfold U32; lia). reflexivity.
+    + split; [exact Hn|]. exists 1. rewrite H1. repeat split; try lia.
+  - split; [exact (H2 HW)|]. rewrite H1. intros x [].
+Qed.
+
+(* which table the new handle goes to *)
+Definition handle_kind (o : op) : option kind :=
+  match o with
+  | OpenVol _ => Some KV | OpenRoot _ | OpenDir _ _ => Some KD | OpenFile _ _ _ => Some KF | _ => None
+  end.
+
+(* a call that returns a handle returns the counter value, is one of the four opening calls,
+   and appended exactly that id to the table of its kind (which had room) *)
+Theorem step_handle : forall o s h s', step o s = (Ok (RHandle h), s') ->
+  exists K, handle_kind o = Some K /\ h = s_next_id s /\ pushed K s s'.
+Proof.
+  intros o s h s' E.
+  destruct o; cbn [step] in E;
+    try (apply lift_ok_inv in E; destruct E as (a & E & Hr); try discriminate; injection Hr as ->).
+  - exists KV. split; [reflexivity|]. apply open_raw_volume_fin in E.
+    destruct E as [[Hno _]|[Ho Hp]]; [exfalso; exact (Hno _ eq_refl) | injection Ho as ->; auto].
+  - exists KD. split; [reflexivity|]. apply open_root_dir_fin in E.
+    destruct E as [[Hno _]|[Ho Hp]]; [exfalso; exact (Hno _ eq_refl) | injection Ho as ->; auto].
+  - exists KD. split; [reflexivity|]. apply open_dir_fin in E.
+    destruct E as [[Hno _]|[Ho Hp]]; [exfalso; exact (Hno _ eq_refl) | injection Ho as ->; auto].
+  - exists KF. split; [reflexivity|]. apply open_file_in_dir_fin in E.
+    destruct E as [[Hno _]|[Ho Hp]]; [exfalso; exact (Hno _ eq_refl) | injection Ho as ->; auto].
+Qed.
+
+(* C08, first sentence.  All three kinds of handle come from the one counter; within the
+   window the returned handle differs from every id in every table; and the invariant
+   carries over with the window one wider.  The second part holds for EVERY op and outcome. *)
+Theorem C08_fresh : forall age_max o s, age_max < U32 - 1 -> fresh_inv age_max s -> remount_ok o ->
+  (forall h s', step o s = (Ok (RHandle h), s') ->
+     h = s_next_id s /\ (forall x, In x (all_ids s) -> x <> h) /\ In h (all_ids s') /\
+     exists K, handle_kind o = Some K /\ pushed K s s') /\
+  fresh_inv (age_max + 1) (snd (step o s)).
+Proof.
+  intros age_max o s Ha Hinv Hw. split.
+  - intros h s' E. destruct (step_handle o s h s' E) as (K & HK & -> & Hp).
+    split; [reflexivity|]. split; [apply (fresh_inv_distinct age_max); [lia | exact Hinv]|].
+    split; [|exists K; auto].
+    destruct Hp as (_ & _ & _ & _ & _ & Hp). unfold all_ids.
+    destruct K; destruct Hp as (_ & V & D & F); rewrite V, D, F, !in_app_iff; cbn; tauto.
+  - destruct (step o s) as [out s'] eqn:E. cbn [snd].
+    exact (fresh_inv_effect _ _ _ _ Hw (step_effect o s out s' E) Hinv).
+Qed.
+
+(* the hypotheses are satisfiable: a fresh manager, and a manager with one directory open *)
+Example fresh_inv_init : forall d id maxv maxd maxf faults, id < U32 ->
+  fresh_inv 0 (init_state d id maxv maxd maxf faults) /\
+  (maxv <> 0 -> within_limits (init_state d id maxv maxd maxf faults)).
+Proof.
+  intros. split; [split; [exact H | intros x []]|]. intros _. unfold within_limits. cbn. repeat split; lia.
+Qed.
+Example fresh_inv_nontrivial :
+  let s := snd (step (OpenRoot 0) (init_state (PositiveMap.empty block) 4294967295 1 2 1 [])) in
+  fresh_inv 1 s /\ all_ids s = [4294967295] /\ s_next_id s = 0 /\ within_limits s.
+Proof.
+  cbv zeta. split; [|split; [reflexivity|split; [reflexivity|]]].
+  - split; [reflexivity|]. intros x [<-|[]]. split; [reflexivity|]. exists 1. repeat split; discriminate.
+  - unfold within_limits. cbn. repeat split; discriminate.
+Qed.
+
+(* ---- beyond the window the first sentence of C08 is FALSE: the counter wraps.  A directory
+   is opened (handle 0) and kept; then 2^32 - 1 times a second directory is opened and
+   closed again (every one of these calls succeeds); the next open returns handle 0 again
+   while the first directory with handle 0 is still open. ---- *)
+Definition wrap_state (k : N) : st :=
+  mk_st (PositiveMap.empty block) zero_block None [] [mk_dirinfo 0 7 CL_ROOT] [] k 0 0 [] [] false 1 2 1.
+Definition open_close_cycle (s : st) : st :=
+  snd (step (CloseDir (s_next_id s)) (snd (step (OpenRoot 7) s))).
+
+Lemma cycle_ok k : k <> 0 ->
+  step (OpenRoot 7) (wrap_state k) =
+    (Ok (RHandle k), set_s_dirs (wrap_state ((k + 1) mod U32)) [mk_dirinfo 0 7 CL_ROOT; mk_dirinfo k 7 CL_ROOT]) /\
+  step (CloseDir k) (set_s_dirs (wrap_state ((k + 1) mod U32)) [mk_dirinfo 0 7 CL_ROOT; mk_dirinfo k 7 CL_ROOT]) =
+    (Ok RUnit, wrap_state ((k + 1) mod U32)).
+Proof.
+  intros Hk. split; [reflexivity|].
+  cbn [step]. apply (lift_ok (fun _ : unit => RUnit) _ _ tt).
+  unfold close_dir. rewrite locked_free by reflexivity. unfold bind. rewrite get_dir_by_id_eq.
+  unfold wrap_state. st_cbn. cbn [find_idx d_id].
+  assert (E0 : (0 =? k) = false) by (apply N.eqb_neq; lia). rewrite E0, N.eqb_refl. reflexivity.
+Qed.
+
+Lemma cycle_wrap k : k <> 0 -> open_close_cycle (wrap_state k) = wrap_state ((k + 1) mod U32).
+Proof.
+  intros Hk. destruct (cycle_ok k Hk) as [H1 H2]. unfold open_close_cycle.
+  rewrite H1. cbn [snd]. change (s_next_id (wrap_state k)) with k. rewrite H2. reflexivity.
+Qed.
+
+Lemma iter_cycle : forall n, n <= U32 - 1 ->
+  N.iter n open_close_cycle (wrap_state 1) = wrap_state ((1 + n) mod U32).
+Proof.
+  induction n as [|n IH] using N.peano_ind; intros Hn; [reflexivity|].
+  rewrite N.iter_succ, IH by lia.
+  assert (Hs : (1 + n) mod U32 = 1 + n) by (apply N.mod_small; unfold U32 in *; lia).
+  rewrite Hs, cycle_wrap by lia. f_equal. f_equal. lia.
+Qed.
+
+Theorem C08_wrap_refuted_state :
+  let s0 := init_state (PositiveMap.empty block) 0 1 2 1 [] in
+  exists s1 s3,
+    step (OpenRoot 7) s0 = (Ok (RHandle 0), s1) /\ dids s1 = [0] /\
+    (* every call of every cycle succeeds *)
+    (forall n, n < U32 - 1 -> exists h sa sb,
+        step (OpenRoot 7) (N.iter n open_close_cycle s1) = (Ok (RHandle h), sa) /\
+        step (CloseDir h) sa = (Ok RUnit, sb) /\ sb = N.iter (n + 1) open_close_cycle s1) /\
+    let s2 := N.iter (U32 - 1) open_close_cycle s1 in
+    dids s2 = [0] /\ within_limits s2 /\
+    step (OpenRoot 7) s2 = (Ok (RHandle 0), s3) /\ dids s3 = [0; 0].
+Proof.
+  cbv zeta. exists (wrap_state 1). eexists.
+  split; [reflexivity|]. split; [reflexivity|]. split.
+  - intros n Hn. rewrite iter_cycle by lia.
+    assert (Hs : (1 + n) mod U32 = 1 + n) by (apply N.mod_small; unfold U32 in *; lia).
+    rewrite Hs. destruct (cycle_ok (1 + n) ltac:(lia)) as [H1 H2].
+    eexists. eexists. eexists. split; [exact H1|]. split; [exact H2|].
+    rewrite iter_cycle by lia. f_equal. f_equal. lia.
+  - rewrite iter_cycle by lia. change ((1 + (U32 - 1)) mod U32) with 0.
+    split; [reflexivity|]. split; [unfold within_limits; cbn; repeat split; discriminate|].
+    split; reflexivity.
+Qed.
+
+(* ================================================================== assumptions *)
+Print Assumptions C08_reentrant.
+Print Assumptions C08_reentrant_excluded.
+Print Assumptions C08_reentrant_no_effect.
+Print Assumptions C08_iterate_holds_lock.
+Print Assumptions C08_reentrant_in_callback.
+Print Assumptions C08_reentrant_in_callback_state.
+Print Assumptions C08_query_truthful.
+Print Assumptions C08_stale_file_handle.
+Print Assumptions C08_stale_file_handle_io.
+Print Assumptions C08_stale_dir_handle.
+Print Assumptions C08_stale_vol_handle.
+Print Assumptions C08_root_stale_refuted.
+Print Assumptions step_effect.
+Print Assumptions C08_limits.
+Print Assumptions C08_limits_constant.
+Print Assumptions C08_limit_errors.
+Print Assumptions C08_volume_rules.
+Print Assumptions C08_close_dir_frees.
+Print Assumptions step_handle.
+Print Assumptions C08_fresh.
+Print Assumptions C08_wrap_refuted_state.
